@@ -33,6 +33,14 @@ let bop_of = function
   | "EQUIV" -> Some Model.OEquiv | "NAND" -> Some Model.ONand | "NOR" -> Some Model.ONor
   | "IMP" -> Some Model.OImp | "IMPS" -> Some Model.OImpStrict | _ -> None
 
+(* TDD (kind "tdd"): the extracted three-valued logic of coq/DD/Tdd.v; value codes 0 F, 1 U, 2 T *)
+let t3_tri = function 0 -> Model.TF | 1 -> Model.TU | _ -> Model.TT
+let t3_code = function Model.TF -> 0 | Model.TU -> 1 | Model.TT -> 2
+let t3_bop_of = function
+  | "T3AND" -> Some Model.And | "T3OR" -> Some Model.Or | "T3NAND" -> Some Model.Nand | "T3NOR" -> Some Model.Nor
+  | "T3XOR" -> Some Model.Xor | "T3EQUIV" -> Some Model.Equiv | "T3IMP" -> Some Model.Imp
+  | "T3IMPS" -> Some Model.ImpStrict | _ -> None
+
 let bits_of_mask (m : int) : int list =
   let rec go v acc = if v < 0 then acc else go (v - 1) (if (m lsr v) land 1 = 1 then v :: acc else acc) in
   go 62 []
@@ -426,7 +434,66 @@ let () =
                        else if abs_float (fv -. ex) > 1e-9 *. abs_float ex then
                          fail p.pstep "C12" "prop" (Printf.sprintf "sat_count(%d) as f64 = %h, exact %s" vars fv (Z.to_string exact))))
                  | None -> stat "unresolved" 1)
+              (* TDD (package TDDx): every T3 operation against the extracted fixed tables of coq/DD/Tdd.v
+                 ([k_not], [table], [ite3]) applied pointwise to the operands' value tables over all 3^n
+                 ternary assignments (index digit v = child index at variable v: 0 true, 1 unknown, 2 false;
+                 values 0 F, 1 U, 2 T); the result tables enter the case digest (C06, C20) *)
+              | [ "T3CONST"; dst; cv ] when kname = "tdd" ->
+                expect_bool "C11" p.pstep what dst (Array.make (pow3 n) (match cv with "f" -> 0 | "u" -> 1 | _ -> 2))
+              | [ "T3VAR"; dst; v ] when kname = "tdd" ->
+                let v = int_of_string v in
+                expect_bool "C11" p.pstep what dst (Array.init (pow3 n) (fun idx -> 2 - (idx / pow3 v mod 3)))
+              | [ "T3NOT"; dst; a ] when kname = "tdd" ->
+                (match get a with
+                 | Some ta -> expect_bool "C11" p.pstep what dst (Array.map (fun x -> t3_code (Model.t3_not (t3_tri x))) ta)
+                 | None -> stat "unresolved" 1)
+              | [ op; dst; a; b ] when kname = "tdd" && t3_bop_of op <> None ->
+                (match get a, get b, t3_bop_of op with
+                 | Some ta, Some tb, Some o ->
+                   expect_bool "C11" p.pstep what dst
+                     (Array.init (pow3 n) (fun i -> t3_code (Model.t3_bin o (t3_tri ta.(i)) (t3_tri tb.(i)))))
+                 | _ -> stat "unresolved" 1)
+              | [ "T3ITE"; dst; a; b; cc ] when kname = "tdd" ->
+                (match get a, get b, get cc with
+                 | Some ta, Some tb, Some tc ->
+                   expect_bool "C11" p.pstep what dst
+                     (Array.init (pow3 n) (fun i -> t3_code (Model.t3_ite (t3_tri ta.(i)) (t3_tri tb.(i)) (t3_tri tc.(i)))))
+                 | _ -> stat "unresolved" 1)
+              | [ "T3COF"; dt; du; de; a ] when kname = "tdd" ->
+                (match get a, (if List.mem (slot_of a) p.pdst then None else List.assoc_opt (slot_of a) ps.handles) with
+                 | Some ta, Some ea ->
+                   check "C11";
+                   (match ea.Model.eref with
+                    | Model.RT _ -> if not (starts_with p.pres "none") then fail p.pstep "C11" "prop" "cofactors returned Some for a terminal"
+                    | Model.RN id ->
+                      if starts_with p.pres "none" then fail p.pstep "C11" "prop" "cofactors returned None for an inner node"
+                      else (
+                        let lvl = (match Model.PositiveMap.find id ps.snap.Model.s_nodes with
+                            | Some nd -> int_of_nat nd.Model.nlevel | None -> 0) in
+                        let v = ps.l2v.(lvl) in
+                        let w = pow3 v in
+                        List.iteri (fun k d ->
+                            match getd d with
+                            | Some got ->
+                              let exp = Array.init (pow3 n) (fun idx -> ta.(idx - (idx / w mod 3) * w + k * w)) in
+                              Buffer.add_string digest (Printf.sprintf "%d:cof%d%s;" p.pstep k (show_vt got));
+                              if got <> exp then
+                                fail p.pstep "C11" "prop"
+                                  (Printf.sprintf "%s: cofactor %d w.r.t. the top variable %d is %s, expected %s" what k v (show_vt got) (show_vt exp))
+                            | None -> stat "unresolved" 1)
+                          [ dt; du; de ]))
+                 | _ -> stat "unresolved" 1)
               (* TDD: the implementation's eval over all 3^n ternary assignments = the extracted interpreter on the snapshot *)
+              | [ "T3EVAL"; a ] when List.mem "C11" !props ->
+                (match split_ws p.pres, get a with
+                 | "vt3" :: _ :: vals, Some tab when List.length vals = Array.length tab ->
+                   check "C11"; stat "c11_tdd_evals" 1;
+                   Buffer.add_string digest (Printf.sprintf "%d:ev%s;" p.pstep (String.concat "" vals));
+                   if List.map int_of_string vals <> Array.to_list tab then
+                     fail p.pstep "C11" "prop"
+                       (Printf.sprintf "%s: eval over all ternary assignments gives [%s], the diagram denotes %s" what
+                          (String.concat "" vals) (show_vt tab))
+                 | _ -> stat "unresolved" 1)
               | [ "T3EVAL"; a ] ->
                 (match split_ws p.pres, get a with
                  | "vt3" :: _ :: vals, Some tab when List.length vals = Array.length tab ->
@@ -488,6 +555,22 @@ let () =
             else "a handle refers to a missing node or carries a tag" in
           fail step "C03" "prop" ("wf_b false: " ^ why);
           if !order_req <> None || !lswap_pending then fail step "C08" "prop" ("after reordering, wf_b false: " ^ why));
+        (* TDD: the hypothesis TdOK of the table-level theorems (coq/DD/ApplyTddBase.v .. ApplyTddTop.v, coq/DD/TddRc.v; the
+           C01_tdd / C03_tdd / C05_tdd / C06_tdd theorems of coq/Props): wf_b + kind TDD + exactly the terminals False, Unknown, True *)
+        if kname = "tdd" then (
+          check "C03"; stat "tdd_ok_checked" 1;
+          let okb = Model.td_ok_b s in
+          if Model.wf_full_b s && not okb then
+            fail step "C03" "corr" "td_ok_b false: the terminals of the TDD manager are not exactly False, Unknown, True (hypothesis TdOK of the TDD theorems)";
+          (* the invariant spelled out for ternary nodes (coq/DD/TddAudit.v [td_wf3_b]; theorem C03_tdd_wf3_b_spec:
+             td_wf3_b = td_ok_b) and the ternary reference-count audit (theorem C05_tdd_rc_b_exact: td_rc_b = rc_exact_b) *)
+          if Model.td_wf3_b s <> okb then
+            fail step "C03" "corr" (Printf.sprintf "td_wf3_b = %b but td_ok_b = %b on the same snapshot (theorem C03_tdd_wf3_b_spec)" (not okb) okb);
+          if ps.nnodes <= 400 then (
+            check "C05"; stat "tdd_rc3_checked" 1;
+            let generic = (Model.rc_first_bad s [] = None) in
+            if Model.td_rc_b s <> generic then
+              fail step "C05" "corr" (Printf.sprintf "td_rc_b = %b but the generic audit rc_exact_b = %b (theorem C05_tdd_rc_b_exact)" (not generic) generic)));
         if ps.inner <> ps.listed then
           fail step "C03" "prop" (Printf.sprintf "num_inner_nodes = %d but the level views list %d nodes" ps.inner ps.listed);
         if ps.levels <> n then fail step "C16" "prop" "num_levels differs from the number of variables";
@@ -537,6 +620,19 @@ let () =
           ps.handles;
         if kname = "zbdd" then
           List.iter (fun (slot, e) -> match family ps e with Some f -> Hashtbl.replace fams slot f | None -> ()) ps.handles;
+        (* TDD: the extracted value table over the VARIABLE assignments (coq/DD/TddAudit.v [td_vtable], the object of
+           theorem C01_tdd_canon_vtable) must be the table computed above *)
+        if kname = "tdd" && n <= 5 then
+          List.iter (fun (slot, e) ->
+              match Hashtbl.find_opt tts slot with
+              | None -> ()
+              | Some t ->
+                stat "tdd_vtables" 1;
+                let vt = List.map (function Some v -> t3_code v | None -> -1) (Model.td_vtable s e.Model.eref) in
+                if vt <> Array.to_list t then
+                  fail step "C01" "corr" (Printf.sprintf "handle h%d: extracted td_vtable [%s] differs from the interpretation %s"
+                                            slot (String.concat "" (List.map string_of_int vt)) (show_vt t)))
+            ps.handles;
         (* C09: the hypothesis of the model theorems (well-formed ZBDD table with both terminals) *)
         if kname = "zbdd" && List.mem "C09" !props then (
           zok := Model.zbdd_ok_b s;
@@ -747,7 +843,7 @@ let () =
                  | Some k, Some 0 ->
                    fail i "C05" "prop" (Printf.sprintf "terminal capacity probe: %d terminals stored without OutOfMemory in a manager with %d terminal slots" k tcap)
                  | _ -> ())
-              | [ "FILL" ] | [ "BIGFILL" ] ->
+              | [ "FILL" ] | [ "BIGFILL" ] | [ "T3FILL" ] | [ "T3FILL"; _ ] ->
                 (* capacity probe: with every created node alive the store must be full at the first OOM *)
                 check "C05";
                 let kv = List.filter_map (fun t -> match String.split_on_char '=' t with [ k; v ] -> Some (k, int_of_string v) | _ -> None) (split_ws res) in
@@ -772,6 +868,11 @@ let () =
                 invalidate (slot_of dst);
                 (match Hashtbl.find_opt tts (slot_of a) with Some t -> Hashtbl.replace tts (slot_of dst) t | None -> ());
                 (match Hashtbl.find_opt fams (slot_of a) with Some t -> Hashtbl.replace fams (slot_of dst) t | None -> ())
+              | [ "T3COF"; dt; du; de; _ ] ->
+                let ds = [ slot_of dt; slot_of du; slot_of de ] in
+                let p = mkpend i toks res ds in
+                if not (starts_with res "none") then List.iter invalidate ds;
+                pending := p :: !pending
               | [ "COF"; dt; de; _ ] ->
                 let p = mkpend i toks res [ slot_of dt; slot_of de ] in
                 if not (starts_with res "none") then (invalidate (slot_of dt); invalidate (slot_of de));
